@@ -90,6 +90,8 @@ struct FADomain {
     if (!left) { for (unsigned s = 0; s < (1u << n); s++) for (unsigned f = 0; f < (1u << n); f++) { Item it; it.ne = (uint8_t)pick.size(); for (size_t i = 0; i < pick.size(); i++) it.e[i] = (uint8_t)pick[i]; it.st = (uint8_t)s; it.fin = (uint8_t)f; items.push_back(it); } return; }
     for (size_t i = from; i + left <= U.size(); i++) { pick.push_back((int)i); gen(i + 1, left - 1, pick); pick.pop_back(); }
   }
+  // keep only NFAs all of whose states are reachable and co-reachable and whose language is non-empty (inclusion trims its operands first)
+  void keepTrimmedOnly() { std::vector<Item> k; for (size_t i = 0; i < items.size(); i++) { NFA A = get(i); if (emptyLang(A)) continue; auto f = fwdReach(A), b = bwdReach(A); bool ok = true; for (auto q : A.states()) if (!f.count(q) || !b.count(q)) ok = false; if (ok) k.push_back(items[i]); } items.swap(k); }
   size_t size() const { return items.size(); }
   int numEdges(size_t i) const { return items[i].ne; }
   NFA get(size_t i) const { NFA A; const Item& it = items[i]; for (int k = 0; k < it.ne; k++) A.edges.insert(U[it.e[k]]); for (int q = 0; q < n; q++) { if (it.st >> q & 1) A.starts.insert(q); if (it.fin >> q & 1) A.finals.insert(q); } return A; }
